@@ -272,35 +272,215 @@ Proof.
   match goal with |- _ <= (if ?c then _ else _) <= _ => destruct c eqn:E end; unfold min_i64, max_i64 in *; lia.
 Qed.
 
-Lemma append_decimal_shape_proof : forall b spare f dec,
+(* ---- the standard-library branch ( |f|*10^dec >= 9e18 ) ---------------------------------------------------- *)
+
+Lemma z_rdigits_eq f : forall n, z_rdigits f n = rdigits f n.
+Proof. induction f as [|f IH]; intros n; cbn [z_rdigits rdigits]; [reflexivity|]. rewrite IH. reflexivity. Qed.
+
+Lemma z_decimal_eq n : z_decimal n = udecimal n.
+Proof. unfold z_decimal, udecimal. rewrite z_rdigits_eq. reflexivity. Qed.
+
+Lemma z_frac_rdigits_eq k : forall m, z_frac_rdigits k m = frac_rdigits k m.
+Proof. induction k as [|k IH]; intros m; cbn [z_frac_rdigits frac_rdigits]; [reflexivity|]. rewrite IH. reflexivity. Qed.
+
+(* the signed integer the standard library prints: +-( |f| * 10^dec rounded half-even ) *)
+Definition std_num (f : f64) (dec0 : Z) : Z :=
+  if f_signbit f then - f_scaled_half_even f dec0 else f_scaled_half_even f dec0.
+
+Lemma f_scaled_nonneg f dec0 : 0 <= dec0 -> 0 <= f_scaled_half_even f dec0.
+Proof.
+  intros Hd. unfold f_scaled_half_even. destruct f as [s|s| |s m e]; try lia.
+  assert (0 < 10 ^ dec0) by (apply Z.pow_pos_nonneg; lia).
+  destruct (0 <=? e) eqn:E.
+  - assert (0 < 2 ^ e) by (apply Z.pow_pos_nonneg; lia). nia.
+  - assert (Hd2 : 0 < 2 ^ (- e)) by (apply Z.pow_pos_nonneg; lia).
+    unfold div_half_even. cbv zeta.
+    assert (0 <= Z.pos m * 10 ^ dec0 / 2 ^ (- e)) by (apply Z.div_pos; nia).
+    repeat match goal with |- context [if ?c then _ else _] => destruct c end; lia.
+Qed.
+
+Lemma std_format_text f dec0 : 0 <= dec0 -> f_scaled_half_even f dec0 <> 0 ->
+  std_format_f f dec0 = dec_text (std_num f dec0) dec0.
+Proof.
+  intros Hd Hq. pose proof (f_scaled_nonneg f dec0 Hd) as H0.
+  unfold std_format_f, dec_text, std_num. cbv zeta.
+  rewrite z_decimal_eq, z_frac_rdigits_eq.
+  destruct (f_signbit f).
+  - replace (- f_scaled_half_even f dec0 <? 0) with true by lia.
+    replace (Z.abs (- f_scaled_half_even f dec0)) with (f_scaled_half_even f dec0) by lia. reflexivity.
+  - replace (f_scaled_half_even f dec0 <? 0) with false by lia.
+    replace (Z.abs (f_scaled_half_even f dec0)) with (f_scaled_half_even f dec0) by lia. reflexivity.
+Qed.
+
+(* trimming the text is the trailing-zero loop on the number *)
+Lemma ad_trim_snoc0 l : ad_trim (l ++ [48]) = ad_trim l.
+Proof. unfold ad_trim. rewrite rev_app_distr. reflexivity. Qed.
+
+Lemma quot10_abs N : N <> 0 -> Z.rem N 10 = 0 ->
+  Z.quot N 10 <> 0 /\ Z.abs (Z.quot N 10) = Z.abs N / 10 /\ (Z.quot N 10 <? 0) = (N <? 0) /\ Z.abs N mod 10 = 0.
+Proof.
+  intros Hnz Hr. pose proof (Z.quot_rem' N 10) as E. rewrite Hr in E.
+  assert (Hq : N = 10 * Z.quot N 10) by lia.
+  split; [lia|]. split; [|split; [lia|]].
+  - rewrite Hq at 2. rewrite Z.abs_mul. change (Z.abs 10) with 10. rewrite Z.mul_comm, Z.div_mul by lia. reflexivity.
+  - rewrite Hq, Z.abs_mul. change (Z.abs 10) with 10. rewrite Z.mul_comm. apply Z.mod_mul. lia.
+Qed.
+
+Lemma dec_text_succ N k : 0 <= k ->
+  dec_text N (k + 1) =
+  ((if N <? 0 then [45] else []) ++ udecimal (Z.abs N / 10 / 10 ^ k) ++ 46 :: rev (frac_rdigits (Z.to_nat k) (Z.abs N / 10)))
+  ++ [48 + Z.abs N mod 10].
+Proof.
+  intros Hk. unfold dec_text. cbv zeta. replace (0 <? k + 1) with true by lia.
+  replace (Z.to_nat (k + 1)) with (S (Z.to_nat k)) by lia. cbn [frac_rdigits rev].
+  rewrite Z.pow_add_r, Z.pow_1_r by lia. rewrite (Z.mul_comm (10 ^ k) 10).
+  rewrite <- Z.div_div by (try lia; apply Z.pow_pos_nonneg; lia).
+  rewrite <- !app_assoc. cbn [app]. reflexivity.
+Qed.
+
+Lemma ad_trim_last l d : d <> 48 -> d <> 46 -> ad_trim (l ++ [d]) = Ok (l ++ [d]).
+Proof.
+  intros H1 H2. unfold ad_trim. rewrite rev_app_distr. cbn [rev app ad_drop_zeros].
+  replace (d =? 48) with false by lia. cbn [rbind]. replace (d =? 46) with false by lia.
+  cbn [rev]. rewrite rev_involutive. reflexivity.
+Qed.
+
+Lemma ad_trim_dot l : ad_trim (l ++ [46]) = Ok l.
+Proof.
+  unfold ad_trim. rewrite rev_app_distr. cbn [rev app ad_drop_zeros].
+  change (46 =? 48) with false. cbn [rbind]. change (46 =? 46) with true. cbv iota.
+  rewrite rev_involutive. reflexivity.
+Qed.
+
+Lemma ad_trim_dec_text k : forall N pre, N <> 0 ->
+  let nd := ad_strip (S k) N (Z.of_nat (S k)) in
+  ad_trim (pre ++ dec_text N (Z.of_nat (S k))) = Ok (pre ++ dec_text (fst nd) (snd nd)).
+Proof.
+  induction k as [|k IH]; intros N pre Hnz; cbv zeta.
+  - (* one decimal *)
+    change (Z.of_nat 1) with (0 + 1). cbn [ad_strip]. change (0 <? 0 + 1) with true. cbn [andb].
+    destruct (Z.rem N 10 =? 0) eqn:Er.
+    + destruct (quot10_abs N Hnz ltac:(lia)) as (Hq0 & Hqa & Hqs & Hm).
+      rewrite dec_text_succ by lia. cbn [Z.to_nat frac_rdigits rev]. rewrite Z.pow_0_r, Z.div_1_r.
+      rewrite Hm, Z.add_0_r. rewrite app_assoc. rewrite ad_trim_snoc0.
+      cbn [fst snd]. change (0 + 1 - 1) with 0.
+      replace (pre ++ (if N <? 0 then [45] else []) ++ udecimal (Z.abs N / 10) ++ [46])
+        with ((pre ++ (if N <? 0 then [45] else []) ++ udecimal (Z.abs N / 10)) ++ [46]) by (rewrite <- !app_assoc; reflexivity).
+      rewrite ad_trim_dot. f_equal. f_equal.
+      unfold dec_text. cbv zeta. change (0 <? 0) with false.
+      rewrite Hqs, Hqa. rewrite Z.pow_0_r, Z.div_1_r, app_nil_r. reflexivity.
+    + cbn [fst snd]. assert (Hm : Z.abs N mod 10 <> 0) by (rewrite abs_mod10; lia).
+      pose proof (Z.mod_pos_bound (Z.abs N) 10 ltac:(lia)) as Hb.
+      rewrite dec_text_succ by lia. rewrite app_assoc. apply ad_trim_last; lia.
+  - (* S (S k) decimals *)
+    replace (Z.of_nat (S (S k))) with (Z.of_nat (S k) + 1) by lia.
+    change (ad_strip (S (S k)) N (Z.of_nat (S k) + 1))
+      with (if (0 <? Z.of_nat (S k) + 1) && (Z.rem N 10 =? 0) then ad_strip (S k) (Z.quot N 10) (Z.of_nat (S k) + 1 - 1) else (N, Z.of_nat (S k) + 1)).
+    replace (0 <? Z.of_nat (S k) + 1) with true by lia. cbn [andb].
+    destruct (Z.rem N 10 =? 0) eqn:Er.
+    + destruct (quot10_abs N Hnz ltac:(lia)) as (Hq0 & Hqa & Hqs & Hm).
+      rewrite dec_text_succ by lia.
+      rewrite Hm, Z.add_0_r. rewrite app_assoc. rewrite ad_trim_snoc0.
+      replace (Z.of_nat (S k) + 1 - 1) with (Z.of_nat (S k)) by lia.
+      rewrite <- (IH (Z.quot N 10) pre Hq0). f_equal. f_equal.
+      unfold dec_text. cbv zeta. replace (0 <? Z.of_nat (S k)) with true by lia.
+      rewrite Hqs, Hqa. reflexivity.
+    + cbn [fst snd]. assert (Hm : Z.abs N mod 10 <> 0) by (rewrite abs_mod10; lia).
+      pose proof (Z.mod_pos_bound (Z.abs N) 10 ltac:(lia)) as Hb.
+      rewrite dec_text_succ by lia. rewrite app_assoc. apply ad_trim_last; lia.
+Qed.
+
+(* ---- AppendDecimal, both branches ------------------------------------------------------------------------------ *)
+
+(* does the scaled value leave the int64 range (the test  9.0e18 <= |f| * 10^dec  of the code) *)
+Definition ad_big (f : f64) (dec0 : Z) : bool := fle f9e18 (fmul (SFabs f) (pow10 dec0)).
+
+(* the integer AppendDecimal prints with dec0 decimals *)
+Definition ad_num (f : f64) (dec0 : Z) : Z := if ad_big f dec0 then std_num f dec0 else ad_scaled f dec0.
+
+(* the two side conditions that FloatProofs' real-number argument discharges for every float64 *)
+Definition ad_side (f : f64) (dec0 : Z) : Prop :=
+  if ad_big f dec0 then f_scaled_half_even f dec0 <> 0 else ad_scaled f dec0 <> min_i64.
+
+Lemma append_decimal_shape_core : forall b spare f dec,
   (f_finite f = false -> append_decimal b spare f dec = Ok b) /\
-  (f_finite f = true -> ad_scaled f (ad_dec dec) <> min_i64 ->
+  (f_finite f = true -> ad_side f (ad_dec dec) ->
    exists out, append_decimal b spare f dec = Ok (b ++ out) /\
-               dec_literal out (ad_scaled f (ad_dec dec)) (ad_dec dec)).
+               dec_literal out (ad_num f (ad_dec dec)) (ad_dec dec)).
 Proof.
   intros b spare f dec. unfold f_finite, append_decimal. split.
   - intros H. destruct (f_is_nan f || f_is_inf f); [reflexivity|discriminate].
-  - intros H Hmin. destruct (f_is_nan f || f_is_inf f); [discriminate|].
-    fold (ad_dec dec). cbv zeta. fold (ad_scaled f (ad_dec dec)).
-    set (dec0 := ad_dec dec) in *. set (num := ad_scaled f dec0) in *.
+  - intros H Hside. destruct (f_is_nan f || f_is_inf f); [discriminate|].
+    fold (ad_dec dec). cbv zeta. fold (ad_big f (ad_dec dec)). fold (ad_scaled f (ad_dec dec)).
+    unfold ad_num, ad_side in *.
+    set (dec0 := ad_dec dec) in *.
     assert (Hd0 : 0 <= dec0 <= 17) by (unfold dec0, ad_dec; destruct ((dec <? 0) || (17 <? dec)) eqn:E; lia).
-    assert (Hr : min_i64 <= num <= max_i64) by (apply f_to_i64_range).
-    clearbody num dec0.
-    destruct (num =? 0) eqn:E0.
-    + exists [48]. split; [reflexivity|]. left. split; [lia|reflexivity].
-    + destruct (ad_strip_spec (Z.to_nat dec0) num dec0 ltac:(lia) ltac:(lia)) as (H1 & H2 & H3 & H4).
-      set (nd := ad_strip (Z.to_nat dec0) num dec0) in *.
-      assert (Hp : 0 < 10 ^ (dec0 - snd nd)) by (apply Z.pow_pos_nonneg; lia).
-      exists (dec_text (fst nd) (snd nd)). split.
-      * apply ad_print_spec; [|exact H3|lia]. unfold min_i64, max_i64 in *. nia.
-      * apply dec_text_literal; [exact H3|lia|exact H2|exact H4].
+    destruct (ad_big f dec0).
+    + (* standard library *)
+      rewrite (std_format_text f dec0 ltac:(lia) Hside).
+      pose proof (f_scaled_nonneg f dec0 ltac:(lia)) as Hq0.
+      assert (HN : std_num f dec0 <> 0) by (unfold std_num; destruct (f_signbit f); lia).
+      set (N := std_num f dec0) in *. clearbody N dec0.
+      destruct (0 <? dec0) eqn:Ed.
+      * replace dec0 with (Z.of_nat (S (Z.to_nat (dec0 - 1)))) by lia.
+        rewrite ad_trim_dec_text by exact HN.
+        destruct (ad_strip_spec (S (Z.to_nat (dec0 - 1))) N (Z.of_nat (S (Z.to_nat (dec0 - 1)))) ltac:(lia) HN) as (H1 & H2 & H3 & H4).
+        set (nd := ad_strip (S (Z.to_nat (dec0 - 1))) N (Z.of_nat (S (Z.to_nat (dec0 - 1))))) in *.
+        exists (dec_text (fst nd) (snd nd)). split; [reflexivity|].
+        apply dec_text_literal; [exact H3|lia|exact H2|exact H4].
+      * assert (dec0 = 0) by lia. subst dec0. exists (dec_text N 0). split; [reflexivity|].
+        apply dec_text_literal; [exact HN|lia|rewrite Z.pow_0_r; lia|left; reflexivity].
+    + set (num := ad_scaled f dec0) in *.
+      assert (Hr : min_i64 <= num <= max_i64) by (apply f_to_i64_range).
+      clearbody num dec0.
+      destruct (num =? 0) eqn:E0.
+      * exists [48]. split; [reflexivity|]. left. split; [lia|reflexivity].
+      * destruct (ad_strip_spec (Z.to_nat dec0) num dec0 ltac:(lia) ltac:(lia)) as (H1 & H2 & H3 & H4).
+        set (nd := ad_strip (Z.to_nat dec0) num dec0) in *.
+        assert (Hp : 0 < 10 ^ (dec0 - snd nd)) by (apply Z.pow_pos_nonneg; lia).
+        exists (dec_text (fst nd) (snd nd)). split.
+        -- apply ad_print_spec; [|exact H3|lia]. unfold min_i64, max_i64 in *. nia.
+        -- apply dec_text_literal; [exact H3|lia|exact H2|exact H4].
+Qed.
+
+(* half-even rounding on Z: the printed integer q is within half a unit of n/d, ties go to the even q *)
+Lemma div_half_even_spec n d : 0 <= n -> 0 < d ->
+  let q := div_half_even n d in
+  2 * Z.abs (q * d - n) <= d /\ (2 * Z.abs (q * d - n) = d -> Z.even q = true).
+Proof.
+  intros Hn Hd. unfold div_half_even. cbv zeta.
+  pose proof (Z.div_mod n d ltac:(lia)) as E. pose proof (Z.mod_pos_bound n d Hd) as B.
+  destruct (2 * (n mod d) <? d) eqn:E1; [split; [nia|intros; nia]|].
+  destruct (d <? 2 * (n mod d)) eqn:E2; [split; [nia|intros; nia]|].
+  destruct (Z.even (n / d)) eqn:E3; [split; [nia|intros; exact E3]|].
+  split; [nia|]. intros _. rewrite Z.even_add, E3. reflexivity.
+Qed.
+
+(* the value the standard-library branch prints, in exact integer arithmetic: |f| = m * 2^e *)
+Lemma std_value_proof : forall s m e dec0, 0 <= dec0 ->
+  let q := f_scaled_half_even (S754_finite s m e) dec0 in
+  let num := if 0 <=? e then Z.pos m * 2 ^ e * 10 ^ dec0 else Z.pos m * 10 ^ dec0 in
+  let den := if 0 <=? e then 1 else 2 ^ (- e) in
+  2 * Z.abs (q * den - num) <= den /\ (2 * Z.abs (q * den - num) = den -> Z.even q = true).
+Proof.
+  intros s m e dec0 Hd. cbv zeta. unfold f_scaled_half_even. destruct (0 <=? e) eqn:E.
+  - split; [lia|intros; lia].
+  - apply div_half_even_spec; [|apply Z.pow_pos_nonneg; lia].
+    assert (0 < 10 ^ dec0) by (apply Z.pow_pos_nonneg; lia). nia.
 Qed.
 
 Example append_decimal_ex :
   append_decimal [] [] (f_of_bits 13814953986545581818) 6 = Ok [45; 48; 46; 48; 57; 54].   (* -0.096 *)
 Proof. vm_compute. reflexivity. Qed.
 Example append_decimal_ex_hyp :
-  f_finite (f_of_bits 13814953986545581818) = true /\ ad_scaled (f_of_bits 13814953986545581818) (ad_dec 6) = -96000.
+  f_finite (f_of_bits 13814953986545581818) = true /\ ad_big (f_of_bits 13814953986545581818) (ad_dec 6) = false /\
+  ad_scaled (f_of_bits 13814953986545581818) (ad_dec 6) = -96000.
+Proof. vm_compute. repeat split; reflexivity. Qed.
+(* 123.456 with dec = -1 (17 decimals): the standard-library branch, "123.45600000000000307" *)
+Example append_decimal_ex_big :
+  ad_big (f_of_bits 4638387860618067575) (ad_dec (-1)) = true /\
+  append_decimal [] [] (f_of_bits 4638387860618067575) (-1) =
+    Ok [49; 50; 51; 46; 52; 53; 54; 48; 48; 48; 48; 48; 48; 48; 48; 48; 48; 48; 51; 48; 55].
 Proof. vm_compute. split; reflexivity. Qed.
 
 (* ---- AppendFloat: the clauses that do not depend on the digit layout ------------------------------------ *)
